@@ -86,7 +86,7 @@ prop("C10", kind="sim", quick_runs=4000, thorough_s=600,
           "by the harness's own encoders from a type-correct generated value; after each successful set the walker's leaf set must differ from the previous "
           "one only in the target leaf and in key leaves of entries created on the way, and GetNode must return exactly one node holding the value in the "
           "leaf's Go type; distinct = distinct (package, per-step outcome trace) hashes; non-trivial = at least one set succeeded",
-     fault_kinds=["failing_set", "bad:illtyped", "bad:unknown-path", "bad:missing-key", "bad:int-overflow"],
+     fault_kinds=["failing_set", "bad:illtyped", "bad:unknown-path", "bad:missing-key", "bad:int-overflow", "bad:uint-for-signed"],
      probes=["set_ok", "set_ok:tv", "set_ok:json", "set_created_entry", "set_ok:json_tolerance", "set_ok:leaf-list", "set_ok:shadow-path",
              "set_ok:keyclass:stringkey", "set_ok:keyclass:uint32key", "set_ok:keyclass:int64key", "set_ok:keyclass:enumkey", "set_ok:keyclass:unionkey",
              "set_ok:keyclass:boolkey", "set_ok:keyclass:multikey",
